@@ -19,17 +19,20 @@ import (
 )
 
 type HarnessResult struct {
-	Name         string           `json:"name"`
-	Paths        int              `json:"paths"`
-	Steps        int64            `json:"steps"`
-	Findings     []Finding        `json:"findings"`
-	FindingCount map[string]int   `json:"finding_count"`
-	Reached      map[string]int   `json:"reached"`
-	Declared     []string         `json:"declared_reach"`
-	Unreached    []string         `json:"unreached"`
-	Inconclusive []string         `json:"inconclusive"`
-	Unknowns     int              `json:"unknowns"`
-	Incomplete   bool             `json:"incomplete"`
+	Name         string         `json:"name"`
+	Paths        int            `json:"paths"`
+	Steps        int64          `json:"steps"`
+	Findings     []Finding      `json:"findings"`
+	FindingCount map[string]int `json:"finding_count"`
+	Reached      map[string]int `json:"reached"`
+	Declared     []string       `json:"declared_reach"`
+	Unreached    []string       `json:"unreached"`
+	Inconclusive []string       `json:"inconclusive"`
+	Unknowns     int            `json:"unknowns"`
+	Incomplete   bool           `json:"incomplete"`
+	Cut          bool           `json:"cut_after_findings"` // exploration stopped early: new findings were already in hand
+	newFindings  int
+	cutAt        int
 	Functions    []string         `json:"functions"`
 	Cases        []ValidationCase `json:"-"`
 	Validated    int              `json:"validated"`
@@ -124,6 +127,12 @@ func main() {
 	tier := flag.String("tier", "quick", "quick | thorough (seen by harnesses through verifThorough)")
 	replay := flag.String("replay", "", "replay a violation file natively and print the trace")
 	flag.BoolVar(&nativeRace, "race", false, "build the native replay with the race detector")
+	knownPath := flag.String("known", "", "known_findings.json: findings listed there do not count towards the early cut")
+	propID := flag.String("prop", "", "property id (for -known)")
+	labelFilter := flag.String("label-filter", "", "regexp: assert findings whose label does not match are not counted towards the early cut")
+	ignoreKinds := flag.String("ignore-kinds", "", "comma-separated finding kinds that are not counted towards the early cut")
+	cutAfter := flag.Int("cut-after", 0, "once a harness has a finding that is not a listed known finding, explore this many further paths of it and stop (0 = never)")
+	cutHarnesses := flag.Int("cut-harnesses", 0, "once this many harnesses have such findings, skip harnesses not yet started (0 = never)")
 	flag.Parse()
 	thoroughTier = *tier == "thorough"
 	os.Setenv("VERIF_TIER", *tier)
@@ -166,6 +175,8 @@ func main() {
 		results[i].Declared = declaredReach(h)
 	}
 	sch := &scheduler{perH: make([]int, len(hs)), maxPaths: *maxPaths}
+	isNew := newFindingFilter(*knownPath, *propID, *labelFilter, *ignoreKinds)
+	violating := 0 // harnesses with new findings (under sch.mu)
 	sch.cond = sync.NewCond(&sch.mu)
 	for i := len(hs) - 1; i >= 0; i-- {
 		sch.stack = append(sch.stack, workItem{h: i})
@@ -208,6 +219,22 @@ func main() {
 					sch.done()
 					continue
 				}
+				if *cutAfter > 0 || *cutHarnesses > 0 {
+					sch.mu.Lock()
+					nviol := violating
+					sch.mu.Unlock()
+					hr.mu.Lock()
+					cut := (*cutAfter > 0 && hr.cutAt > 0 && hr.Paths >= hr.cutAt) ||
+						(*cutHarnesses > 0 && nviol >= *cutHarnesses && hr.newFindings == 0)
+					if cut {
+						hr.Cut = true
+					}
+					hr.mu.Unlock()
+					if cut {
+						sch.done()
+						continue
+					}
+				}
 				if sol.dead {
 					sol, _ = NewSolver(*solver, *timeout, "")
 					sol.send(timePreamble)
@@ -231,7 +258,11 @@ func main() {
 				for _, alt := range r.newItems {
 					sch.push(workItem{h: it.h, prefix: alt})
 				}
-				hr.absorb(r)
+				if hr.absorb(r, isNew, *cutAfter) {
+					sch.mu.Lock()
+					violating++
+					sch.mu.Unlock()
+				}
 				sch.done()
 			}
 			statMu.Lock()
@@ -277,7 +308,9 @@ func main() {
 	bad := false
 	for _, hr := range results {
 		status := "ok"
-		if len(hr.Inconclusive) > 0 || hr.Incomplete || len(hr.Unreached) > 0 {
+		if hr.Cut {
+			status = "cut (findings in hand)"
+		} else if len(hr.Inconclusive) > 0 || hr.Incomplete || len(hr.Unreached) > 0 {
 			status = "INCONCLUSIVE"
 			bad = true
 		}
@@ -353,7 +386,9 @@ func addStats(o *Output, s *SolverStats) {
 
 func findingKey(f *Finding) string { return f.Kind + "|" + f.Label + "|" + f.Site }
 
-func (hr *HarnessResult) absorb(r *Run) {
+// absorb merges one finished path; it reports whether this path gave the
+// harness its first finding that is not a listed known finding.
+func (hr *HarnessResult) absorb(r *Run, isNew func(*Finding) bool, cutAfter int) (firstNew bool) {
 	hr.mu.Lock()
 	defer hr.mu.Unlock()
 	hr.Paths++
@@ -385,6 +420,13 @@ func (hr *HarnessResult) absorb(r *Run) {
 		hr.FindingCount[k]++
 		if hr.FindingCount[k] == 1 {
 			hr.Findings = append(hr.Findings, f)
+			if isNew != nil && isNew(&f) {
+				hr.newFindings++
+				if hr.newFindings == 1 {
+					firstNew = true
+					hr.cutAt = hr.Paths + cutAfter
+				}
+			}
 		}
 	}
 	if r.validate != nil {
@@ -393,6 +435,7 @@ func (hr *HarnessResult) absorb(r *Run) {
 			hr.SamplePaths = append(hr.SamplePaths, PathSample{Decisions: r.taken, Inputs: r.inputTags(), Vector: r.validate.Vector, Events: r.validate.Events, PCSize: len(r.pc)})
 		}
 	}
+	return firstNew
 }
 
 func declaredReach(h *ssa.Function) []string {
@@ -559,4 +602,74 @@ func buildOverlay(repo, hdir string) (map[string][]byte, error) {
 		}
 	}
 	return ov, nil
+}
+
+// newFindingFilter returns the predicate "this finding is not explained by the
+// known-findings file" used by the early cut. The driver (check) makes the real
+// decision; this only has to agree with it on the unchanged tree, where no
+// finding may pass the filter.
+func newFindingFilter(knownPath, prop, labelFilter, ignoreKinds string) func(*Finding) bool {
+	ignored := map[string]bool{"unknown": true}
+	for _, k := range strings.Split(ignoreKinds, ",") {
+		ignored[k] = true
+	}
+	type entry struct {
+		Property string            `json:"property"`
+		Status   string            `json:"status"`
+		Key      map[string]string `json:"key"`
+	}
+	var file struct {
+		Findings []entry `json:"findings"`
+	}
+	if knownPath != "" {
+		if data, err := os.ReadFile(knownPath); err == nil {
+			json.Unmarshal(data, &file)
+		}
+	}
+	var lf *regexp.Regexp
+	if labelFilter != "" {
+		lf = regexp.MustCompile("^(?:" + labelFilter + ")")
+	}
+	type ck struct {
+		re *regexp.Regexp
+		e  entry
+	}
+	var known []ck
+	for _, e := range file.Findings {
+		if e.Status != "known" || e.Property != prop {
+			continue
+		}
+		c := ck{e: e}
+		if h, ok := e.Key["harness"]; ok {
+			c.re = regexp.MustCompile("^(?:" + h + ")$")
+		}
+		known = append(known, c)
+	}
+	return func(f *Finding) bool {
+		if ignored[f.Kind] {
+			return false
+		}
+		if lf != nil && f.Kind == "assert" && !lf.MatchString(f.Label) {
+			return false
+		}
+		for _, k := range known {
+			if k.re != nil && !k.re.MatchString(f.Harness) {
+				continue
+			}
+			if v, ok := k.e.Key["label"]; ok && v != f.Label {
+				continue
+			}
+			if v, ok := k.e.Key["kind"]; ok && v != f.Kind {
+				continue
+			}
+			if v, ok := k.e.Key["site"]; ok && v != f.Site {
+				continue
+			}
+			if v, ok := k.e.Key["detail"]; ok && v != f.Detail {
+				continue
+			}
+			return false
+		}
+		return true
+	}
 }
